@@ -77,7 +77,7 @@ pub fn run_probe(cfg: &str, profile: &str, corpus: &std::path::Path) -> Result<V
     let lines: Vec<String> = text.lines().map(|s| s.to_string()).collect();
     if !out.status.success() {
         // killed by a signal / aborted: the line being evaluated is the first one without output
-        return Ok(lines.into_iter().chain(std::iter::once(format!("DIED status={:?}", out.status))).collect());
+        return Ok(lines.into_iter().chain(std::iter::once(format!("#DIED# status={:?}", out.status))).collect());
     }
     Ok(lines)
 }
@@ -220,6 +220,7 @@ fn run_c14(ctx: &Ctx, n: usize) -> SubResult {
         );
     }
     let mut samples = Vec::new();
+    stats.evaluations = transcripts.values().map(|t| t.len() as u64).sum();
     for (i, l) in corpus.iter().enumerate() {
         let kind = match l {
             Line::Gen { segs, .. } => {
@@ -235,11 +236,11 @@ fn run_c14(ctx: &Ctx, n: usize) -> SubResult {
         };
         stats.class(kind);
         let b = &base[i];
-        if b.contains("PANIC") || b.contains("MISMATCH") || b.contains("BADLINE") || b.contains("DIED") {
+        if b.contains("#PANIC#") || b.contains("MISMATCH#") || b.contains("#BADLINE#") || b.contains("#DIED#") {
             let lj = serde_json::to_value(l).unwrap();
             return fail(format!("default/release probe reports {} for line {}", &b[..b.len().min(300)], i), json!({"line": lj, "config": "default/release"}), false, stats, extra);
         }
-        if !b.contains('!') && !b.contains("ERR") {
+        if !b.contains('!') && !b.contains("=ERR,") {
             stats.nontrivial(oracle::fingerprint(serde_json::to_string(l).unwrap().as_bytes()));
             if samples.len() < 3 && i % 7 == 3 {
                 let mut lj = serde_json::to_string(l).unwrap();
@@ -248,16 +249,14 @@ fn run_c14(ctx: &Ctx, n: usize) -> SubResult {
             }
         }
     }
-    stats.evaluations = 0;
     for ((cfg, prof), t) in &transcripts {
-        stats.evaluations += t.len() as u64;
         stats.class(&format!("config={}/{}", cfg, prof));
         for i in 0..corpus.len() {
-            let got = t.get(i).cloned().unwrap_or_else(|| "MISSING (probe died)".to_string());
+            let got = t.get(i).cloned().unwrap_or_else(|| "#MISSING# (probe died)".to_string());
             let lj = || serde_json::to_value(&corpus[i]).unwrap();
             if cfg == "strict-parser" {
                 if let Line::Parse { text } = &corpus[i] {
-                    if got.contains("PANIC") || got.contains("MISSING") {
+                    if got.contains("#PANIC#") || got.contains("#MISSING#") {
                         return fail(format!("{}/{}: {} on parse line {}", cfg, prof, got, i), json!({"line": lj(), "config": format!("{}/{}", cfg, prof)}), false, stats, extra);
                     }
                     if let Err(m) = judge_strict(text, &got, &base[i]) {
@@ -307,7 +306,7 @@ fn replay(v: &Value) -> Result<(), String> {
     let b = run_probe("f-default", "release", &path)?;
     let _ = std::fs::remove_file(&path);
     let (a, b) = (a.first().cloned().unwrap_or_default(), b.first().cloned().unwrap_or_default());
-    if b.contains("PANIC") || b.contains("MISMATCH") {
+    if b.contains("#PANIC#") || b.contains("MISMATCH#") {
         return Err(format!("default/release: {}", b));
     }
     if cn == "strict-parser" {
@@ -399,10 +398,10 @@ fn run_miri(ctx: &Ctx, n: usize) -> SubResult {
         stats.class(&format!("miri:{}", f));
         let ub = stderr.contains("Undefined Behavior");
         for i in 0..corpus.len() {
-            let got = lines.get(i).copied().unwrap_or("MISSING");
+            let got = lines.get(i).copied().unwrap_or("#MISSING#");
             if got != base[i] {
                 let lj = serde_json::to_value(&corpus[i]).unwrap();
-                let why = if ub && got == "MISSING" {
+                let why = if ub && got == "#MISSING#" {
                     let at = stderr.find("Undefined Behavior").unwrap_or(0);
                     format!("Miri reports undefined behaviour while evaluating this line: {}", stderr[at..].chars().take(600).collect::<String>())
                 } else {
@@ -417,7 +416,7 @@ fn run_miri(ctx: &Ctx, n: usize) -> SubResult {
         }
     }
     for (i, l) in corpus.iter().enumerate() {
-        if !base[i].contains('!') && !base[i].contains("ERR") {
+        if !base[i].contains('!') && !base[i].contains("=ERR,") {
             stats.nontrivial(oracle::fingerprint(serde_json::to_string(l).unwrap().as_bytes()));
         }
     }
